@@ -1419,4 +1419,248 @@ theorem construct_inv {c : Cfg} {dflt : List Val} {kws : List (Nat × Rhs)} {w w
       · rename_i hne _
         simp at h; exact absurd h.1 hne
 
+/-! ### a constructor keyword is a later assignment -/
+
+
+theorem append_set_last {α : Type} (l : List α) (a b : α) : (l ++ [a]).set l.length b = l ++ [b] := by
+  induction l with
+  | nil => rfl
+  | cons x l ih => simp [ih]
+
+theorem unwatchAll_setupRefs_fresh {c : Cfg} {t : Nat} {deps : List SrcP} {watch : List (List (Nat × List Nat))}
+    (hfresh : ∀ (s : Nat) (ws : List (Nat × List Nat)) (names : List Nat), watch[s]? = some ws → (t, names) ∉ ws) :
+    unwatchAll t (setupRefs c t deps watch) = watch := by
+  apply List.ext_getElem?
+  intro s
+  rw [unwatchAll_get, setupRefs_get]
+  cases hws : watch[s]? with
+  | none => rfl
+  | some ws =>
+    simp only [Option.map_some, Option.some.injEq]
+    have hfil : ws.filter (fun x => x.1 != t) = ws := by
+      apply List.filter_eq_self.2
+      intro x hx
+      simp only [bne_iff_ne, ne_eq]
+      intro e
+      exact hfresh s ws x.2 hws (by rw [← e]; exact hx)
+    split
+    · exact hfil
+    · simp [List.filter_append, hfil]
+
+theorem dedupKeys_of_nodup : ∀ (l : List (Nat × Rhs)), (l.map (·.1)).Nodup → dedupKeys l = l := by
+  intro l
+  induction l with
+  | nil => intro _; rfl
+  | cons a l ih =>
+    intro h
+    obtain ⟨k, v⟩ := a
+    simp only [List.map_cons, List.nodup_cons] at h
+    simp only [dedupKeys, ih h.2]
+    have : l.find? (fun kv => kv.1 == k) = none := by
+      simp only [List.find?_eq_none]
+      intro x hx e
+      exact h.1 (List.mem_map.2 ⟨x, hx, by simpa using e⟩)
+    rw [this]
+
+theorem resolveForSet_congr {c : Cfg} {d : PDecl} {linked : Bool} {rhs : Rhs} {w w' : World} (h : w'.src = w.src) :
+    resolveForSet c d linked rhs w' = resolveForSet c d linked rhs w := by
+  unfold resolveForSet
+  rw [resolveRhs_congr h]
+
+theorem setupRefs_nil {c : Cfg} {t : Nat} (watch : List (List (Nat × List Nat))) : setupRefs c t [] watch = watch := by
+  apply List.ext_getElem?
+  intro s
+  rw [setupRefs_get]
+  cases watch[s]? <;> simp
+
+/-- the world in which the object under construction `tg` is finished as target t -/
+def finish (c : Cfg) (ds : List PDecl) (w : World) (tg : Target) : World :=
+  { w with tgts := w.tgts ++ [tg], watch := setupRefs c w.tgts.length (allDeps ds tg.refs) w.watch }
+
+/-- one keyword of the constructor = one later assignment on the finished object -/
+theorem late_step {c : Cfg} {ds : List PDecl} {w : World} {tg : Target} {k : Nat} {rhs : Rhs} {d : PDecl} {v : Val}
+    {rl : Relink}
+    (hds : c.decls[w.tgts.length]? = some ds)
+    (hfresh : ∀ (s : Nat) (ws : List (Nat × List Nat)) (names : List Nat), w.watch[s]? = some ws → (w.tgts.length, names) ∉ ws)
+    (hd : ds[k]? = some d) (hk : k < tg.vals.length) (hkd : k < tg.dflt.length)
+    (hnew : ∀ r, (k, r) ∉ tg.refs)
+    (hres : resolveForSet c d false rhs w = some (some v, rl)) (hvalid : d.valid v = true)
+    (hro : d.readonly = false) (hconst : d.constant = false) :
+    (step c (.set w.tgts.length k rhs) (finish c ds w tg)).1 = .ok ∧
+    (step c (.set w.tgts.length k rhs) (finish c ds w tg)).2.1 =
+      finish c ds w { tg with vals := tg.vals.set k (some v),
+                              refs := (match rl with | .link r => tg.refs ++ [(k, r)] | _ => tg.refs) } := by
+  have hdecl : c.decl w.tgts.length k = some d := by rw [decl_of_decls hds]; exact hd
+  have hkds : k < ds.length := by
+    by_cases hlt : k < ds.length
+    · exact hlt
+    · exfalso; have : ds[k]? = none := by simp; omega
+      rw [this] at hd; cases hd
+  have hsup : Op.supported c (.set w.tgts.length k rhs) = true := by
+    simp only [Op.supported, keySupported, hdecl]
+    unfold resolveForSet at hres
+    split at hres
+    · simp at hres
+    · rename_i hs
+      split at hres
+      · split at hres
+        · rename_i hl; simp_all
+        · simp at hres
+      · rename_i ha; simp_all
+  have htg : (finish c ds w tg).tgts[w.tgts.length]? = some tg := by simp [finish]
+  have hnp : ¬ k ≥ nparams c w.tgts.length := by simp [nparams, hds]; exact hkds
+  have hread : ∃ old, tg.read k = some old := by
+    unfold Target.read
+    cases hv : tg.vals[k]? with
+    | none => exfalso; simp at hv; omega
+    | some x =>
+      cases x with
+      | some v0 => exact ⟨v0, rfl⟩
+      | none => exact ⟨tg.dflt[k], by simp [hkd]⟩
+  obtain ⟨old, hold⟩ := hread
+  have hnone : dictGet tg.refs k = none := dictGet_none_iff.2 hnew
+  have hres' : resolveForSet c d (dictGet tg.refs k).isSome rhs (finish c ds w tg) = some (some v, rl) := by
+    rw [hnone, resolveForSet_congr (w := w) (by simp [finish])]; exact hres
+  have hset : setInst c w.tgts.length k rhs (finish c ds w tg) =
+      (.ok, applyRelink c w.tgts.length k rl (store w.tgts.length k v (finish c ds w tg)), [(k, v)]) := by
+    unfold setInst
+    simp only [htg, hdecl, hold, hres']
+    unfold setCore
+    simp [hvalid, hro, hconst]
+  have hstep : step c (.set w.tgts.length k rhs) (finish c ds w tg) =
+      (.ok, applyRelink c w.tgts.length k rl (store w.tgts.length k v (finish c ds w tg)),
+        [{ who := .tgt, idx := w.tgts.length, evs := [(k, v)] }]) := by
+    unfold step
+    simp [hsup, hnp, hset]
+  rw [hstep]
+  refine ⟨rfl, ?_⟩
+  simp only
+  have hstore : store w.tgts.length k v (finish c ds w tg) = finish c ds w { tg with vals := tg.vals.set k (some v) } := by
+    simp [store, htg, World.setTgt, finish, append_set_last]
+  rw [hstore]
+  -- which link change a constructor keyword can cause
+  unfold resolveForSet at hres
+  split at hres
+  · simp at hres
+  · split at hres
+    · split at hres
+      · simp at hres; obtain ⟨_, e⟩ := hres; subst e; simp [applyRelink]
+      · simp at hres
+    · split at hres
+      · simp at hres; obtain ⟨_, e⟩ := hres; subst e; simp [applyRelink]
+      · split at hres
+        · simp at hres
+          obtain ⟨_, e⟩ := hres; subst e
+          have hset' : dictSet tg.refs k rhs = tg.refs ++ [(k, rhs)] := by
+            unfold dictSet
+            have : tg.refs.any (fun x => x.1 == k) = false := by
+              simp only [List.any_eq_false]
+              intro x hx e
+              exact hnew x.2 (by rw [← (by simpa using e : x.1 = k)]; exact hx)
+            simp [this]
+          simp only [applyRelink, updateRef, finish, List.getElem?_append_right (Nat.le_refl _), Nat.sub_self,
+            List.getElem?_cons_zero, hds, hset', append_set_last, List.length_append, List.length_singleton]
+          simp only [List.getElem?_append_right (Nat.le_refl _), Nat.sub_self, List.getElem?_cons_zero,
+            unwatchAll_setupRefs_fresh hfresh, append_set_last]
+        · simp at hres
+
+theorem late_loop {c : Cfg} {ds : List PDecl} {w : World}
+    (hds : c.decls[w.tgts.length]? = some ds)
+    (hfresh : ∀ (s : Nat) (ws : List (Nat × List Nat)) (names : List Nat), w.watch[s]? = some ws → (w.tgts.length, names) ∉ ws) :
+    ∀ (kws : List (Nat × Rhs)) (tg tgN : Target), (kws.map (·.1)).Nodup →
+    (∀ k r, (k, r) ∈ tg.refs → k ∉ kws.map (·.1)) →
+    (∀ kv ∈ kws, ∀ d, ds[kv.1]? = some d → d.constant = false ∧ d.readonly = false) →
+    ds.length ≤ tg.vals.length → ds.length ≤ tg.dflt.length →
+    ctorKeys c ds w kws tg = (.ok, tgN) →
+    runOps c (kws.map fun kv => .set w.tgts.length kv.1 kv.2) (finish c ds w tg) = finish c ds w tgN := by
+  intro kws
+  induction kws with
+  | nil => intro tg tgN _ _ _ _ _ h; simp [ctorKeys] at h; subst h; rfl
+  | cons kv rest ih =>
+    intro tg tgN hnd hfr hfree hlv hld h
+    obtain ⟨k, rhs⟩ := kv
+    simp only [List.map_cons, List.nodup_cons] at hnd
+    simp only [ctorKeys] at h
+    split at h
+    · simp at h
+    · rename_i d hd
+      have hkds : k < ds.length := by
+        by_cases hlt : k < ds.length
+        · exact hlt
+        · exfalso; have : ds[k]? = none := by simp; omega
+          rw [this] at hd; cases hd
+      split at h
+      · simp at h
+      · simp at h
+      · rename_i v rl hres
+        split at h
+        · simp at h
+        · split at h
+          · simp at h
+          · rename_i hvalid hro
+            obtain ⟨hc, _⟩ := hfree (k, rhs) (List.mem_cons_self ..) d hd
+            have hnew : ∀ r, (k, r) ∉ tg.refs := fun r hm => hfr k r hm (by simp)
+            have hfr0 : ∀ k' r', (k', r') ∈ tg.refs → k' ∉ rest.map (·.1) :=
+              fun k' r' hp hin => hfr k' r' hp (by simp [hin])
+            have hfree' : ∀ kv ∈ rest, ∀ d, ds[kv.1]? = some d → d.constant = false ∧ d.readonly = false :=
+              fun kv hkv => hfree kv (List.mem_cons_of_mem _ hkv)
+            simp only [List.map_cons, runOps]
+            cases rl with
+            | keep =>
+              have hstep := late_step (tg := tg) hds hfresh hd (by omega) (by omega) hnew hres (by simpa using hvalid)
+                (by simpa using hro) hc
+              simp only at hstep h
+              rw [hstep.2]
+              exact ih { vals := tg.vals.set k (some v), dflt := tg.dflt, refs := tg.refs } tgN hnd.2 hfr0 hfree'
+                (by simpa using hlv) hld h
+            | drop =>
+              have hstep := late_step (tg := tg) hds hfresh hd (by omega) (by omega) hnew hres (by simpa using hvalid)
+                (by simpa using hro) hc
+              simp only at hstep h
+              rw [hstep.2]
+              exact ih { vals := tg.vals.set k (some v), dflt := tg.dflt, refs := tg.refs } tgN hnd.2 hfr0 hfree'
+                (by simpa using hlv) hld h
+            | link r0 =>
+              have hstep := late_step (tg := tg) hds hfresh hd (by omega) (by omega) hnew hres (by simpa using hvalid)
+                (by simpa using hro) hc
+              simp only at hstep h
+              rw [hstep.2]
+              refine ih { vals := tg.vals.set k (some v), dflt := tg.dflt, refs := tg.refs ++ [(k, r0)] } tgN hnd.2 ?_ hfree'
+                (by simpa using hlv) hld h
+              intro k' r' hm
+              simp only [List.mem_append, List.mem_singleton] at hm
+              rcases hm with hm | e
+              · exact hfr0 k' r' hm
+              · rw [(Prod.mk.inj e).1]; exact hnd.1
+
+theorem ctor_late_equiv {c : Cfg} {dflt : List Val} {kws : List (Nat × Rhs)} {w w1 : World}
+    (hfresh : ∀ (s : Nat) (ws : List (Nat × List Nat)) (names : List Nat), w.watch[s]? = some ws → (w.tgts.length, names) ∉ ws)
+    (hlen : ∀ ds, c.decls[w.tgts.length]? = some ds → ds.length ≤ dflt.length)
+    (hkeys : (kws.map (·.1)).Nodup)
+    (hfree : ∀ kv ∈ kws, ∀ d, c.decl w.tgts.length kv.1 = some d → d.constant = false ∧ d.readonly = false)
+    (hc : construct c dflt kws w = (.ok, w1)) :
+    ∃ w0, construct c dflt [] w = (.ok, w0) ∧
+      runOps c (kws.map fun kv => .set w.tgts.length kv.1 kv.2) w0 = w1 := by
+  unfold construct at hc ⊢
+  simp only at hc ⊢
+  split at hc
+  · simp at hc
+  · rename_i ds hds
+    have hl := hlen ds hds
+    split at hc
+    · simp at hc
+    · split at hc
+      · rename_i tgN hck
+        simp at hc; subst hc
+        rw [dedupKeys_of_nodup kws hkeys] at hck
+        refine ⟨_, by simp [dedupKeys, ctorKeys]; rfl, ?_⟩
+        have := late_loop hds hfresh kws
+          { vals := (ds.zip dflt).map fun (d, v) => if d.constant || d.readonly then some v else none, dflt := dflt, refs := [] }
+          tgN hkeys (by intro k r hm; cases hm)
+          (fun kv hkv d hd => hfree kv hkv d (by rw [decl_of_decls hds]; exact hd))
+          (by simp; omega) hl hck
+        simpa [finish, allDeps] using this
+      · rename_i hne _
+        simp at hc; exact absurd hc.1 hne
+
 end ParamVerif.Refs
